@@ -24,6 +24,7 @@
 EXTENDS Integers, FiniteSets, Sequences, TLC
 
 CONSTANTS MaxThreads,   \* start_updater calls per behaviour
+          MaxCmds,      \* bound on driver commands per generated script (MCUpdater)
           MaxPasses     \* bound on passes per behaviour (state constraint)
 
 VARIABLES running,      \* the shared AtomicBool
